@@ -354,6 +354,11 @@ CLAIMED["C08"]["text"] = CLAIMED["C08"]["text"] + (" DELETION (Props/C08Delete, 
        "substitution, after the repair of D8d): whatever elements one match captured - segments, syllables, boundaries, in any number - every word the deletion returns still "
        "has a syllable (deleteEls_keeps, transform_deletion_keeps); before the repair the statement was false.")
 
+_amend("C02", "text", "the word parser: Word::new returns a word or a WordSyntaxError for EVERY text",
+       "at the seam to the interpreter, every rule Parser::parse returns has non-empty sides made of non-empty terms (Props/C02Terms.parseLine_rule_ok, after the repair of "
+       "D24: fix a21d332), so the `input[0]` / `output[0]` of Rule::split_into_subrules cannot fail on a parsed rule; "
+       "the word parser: Word::new returns a word or a WordSyntaxError for EVERY text")
+
 
 def main():
     checks = []
